@@ -123,6 +123,32 @@ def split_state_grammars(rng, tries, want):
     return out[:want]
 
 
+def gss_identity_check(max_frontier=40, max_state=60):
+    """The GLR driver (and its Gallina model, which identifies a stack node with the pair
+    (frontier, state)) relies on GSSNode.id being injective on such pairs: links are keyed by the id
+    of their root.  Evaluated on the impl's own GSSNode objects for a grid of pairs; returns the
+    colliding pairs (None when GSSNode cannot be constructed this way)."""
+    try:
+        from parglare.glr import GSSNode
+
+        class _St:
+            def __init__(self, i):
+                self.state_id = i
+                self.symbol = None
+        seen = {}
+        bad = []
+        for f in range(max_frontier + 1):
+            for s_ in range(max_state + 1):
+                n = GSSNode(None, "", _St(s_), 0, f, None)
+                k = n.id
+                if k in seen and seen[k] != (f, s_):
+                    bad.append([list(seen[k]), [f, s_], repr(k)])
+                seen.setdefault(k, (f, s_))
+        return bad
+    except Exception:  # noqa
+        return None
+
+
 def corpus():
     import json
     import os
@@ -161,6 +187,14 @@ def gen_jobs(rng, quick, opts_list, with_lexical=True, nrand=None, maxlen=None, 
                 inputs.append(s)
         for o in opts_list:
             jobs.append((name, text, sorted(set(inputs)), o))
+    # long inputs (more than ten frontiers) of small ambiguous grammars: anything that depends on
+    # frontier numbers with two digits, or on many frontiers being alive, shows only here
+    for name, text, mk in [("long_ss", "S: S S | 'a';", lambda k: "a" * k),
+                           ("long_expr", "E: E '+' E | E '*' E | 'n';", lambda k: "n" + "+n*n" * (k // 4)),
+                           ("long_lex", "S: A S | A; A: 'a' | 'a' 'a';", lambda k: "a" * k),
+                           ("long_null", "S: A S 'b' | EMPTY; A: 'a' | EMPTY;", lambda k: "a" * (k // 2) + "b" * (k // 2))]:
+        ins = [mk(k) for k in ((11, 13) if quick else (11, 12, 13, 14, 16))]
+        jobs.append((name, text, ins, opts_list[0]))
     if with_lexical:
         for name, text, alpha in LEXICAL:
             inputs = list(gramgen.all_strings(list(alpha), 4 if quick else 5))
